@@ -193,15 +193,15 @@ func cmdCheck(args []string) {
 		}
 	}
 	// undecided obligations (unknown/timeout, typically under machine load) get a final, sequential attempt with the machine
-	// to themselves and three times the portfolio timeout; only what is still undecided then is reported
-	if len(fails) > 0 && len(fails) <= 40 {
+	// to themselves and one and a half times the portfolio timeout (at most 12 obligations); only what is still undecided then is reported
+	if len(fails) > 0 && len(fails) <= 12 {
 		var still []failT
 		for _, f := range fails {
 			if f.o.Status == "sat" || f.o.Status == "error" {
 				still = append(still, f)
 				continue
 			}
-			portfolio(f.r, f.i, timeout*3)
+			portfolio(f.r, f.i, timeout*3/2)
 			if f.o.Status == "unsat" {
 				f.o.Solver += " (final retry)"
 				nOK++
